@@ -42,10 +42,17 @@ type Obs struct {
 	Bool  bool   `json:"bool,omitempty"`
 	OK    bool   `json:"ok,omitempty"`
 	Gas   uint64 `json:"gas,omitempty"`
+	Seq   []SObs `json:"seq,omitempty"`
 }
 
 func (o Obs) Coq() string {
 	switch o.Kind {
+	case "seq":
+		items := make([]string, len(o.Seq))
+		for i, x := range o.Seq {
+			items[i] = x.Coq()
+		}
+		return "OSeq " + hlib.CoqList(items)
 	case "addr":
 		return fmt.Sprintf("OAddr %d %s %s %s %s %s", o.Class, hlib.CoqBytes(o.A), hlib.CoqBytes(o.Zone), hlib.CoqBool(o.Qi), hlib.CoqBool(o.IQuai), hlib.CoqBool(o.IQi))
 	case "err":
@@ -104,7 +111,10 @@ type Case struct {
 	Block   uint64 `json:"block,omitempty"`
 	Code    []byte `json:"code,omitempty"`
 	DataLen int    `json:"datalen,omitempty"`
-	Obs     Obs    `json:"obs"`
+	// sender-cache histories (stored.go)
+	Tx  *TxDesc `json:"tx,omitempty"`
+	Ops []SOp   `json:"ops,omitempty"`
+	Obs Obs     `json:"obs"`
 }
 
 func coqStr(s string) string { return hlib.CoqBytes([]byte(s)) }
@@ -278,6 +288,15 @@ func run(c *Case) (coq string, site string, in []byte, refLoc []byte) {
 		c.Obs = obsAddr(common.BigToAddress(new(big.Int).SetBytes(c.B), loc))
 		return fmt.Sprintf("IBig %s %s", B, L), "BigToAddress", new(big.Int).SetBytes(c.B).Bytes(), c.Loc
 	case "IProto":
+		if isStoredSite(c.Site) {
+			// ProtoAddress-typed field of a stored object after a protobuf wire round trip: an empty value arrives as nil
+			var in []byte
+			c.Obs, in = storedSite(c.Site, c.B, loc)
+			if len(c.B) == 0 {
+				return fmt.Sprintf("IProto None %s", L), "", nil, nil
+			}
+			return fmt.Sprintf("IProto (Some %s) %s", hlib.CoqBytes(in), L), "stored/" + c.Site, in, c.Loc
+		}
 		var a common.Address
 		var err error
 		if c.Nil {
@@ -306,6 +325,11 @@ func run(c *Case) (coq string, site string, in []byte, refLoc []byte) {
 		wb := c.B
 		if wb == nil {
 			wb = []byte{} // present but empty on the wire (a replayed case has lost the distinction)
+		}
+		if isStoredSite(c.Site) {
+			var in []byte
+			c.Obs, in = storedSite(c.Site, wb, loc)
+			return fmt.Sprintf("IWire %s %s", hlib.CoqBytes(in), L), "stored/" + c.Site, in, c.Loc
 		}
 		switch c.Site {
 		case "to":
@@ -707,9 +731,19 @@ func main() {
 		cases = append(cases, &c)
 	} else {
 		cases = corpus()
+		cases = append(cases, senderCorpus()...)
+		cases = append(cases, storedCorpus()...)
 		rep.CountN("corpus", len(cases))
 		for i := 0; i < f.N; i++ {
 			cases = append(cases, genCase(rng.Fork()))
+		}
+		// addresses handed out from stored / cached bytes (stored.go); forked last so that the streams above are unchanged
+		srng := hlib.NewRng(f.Seed ^ 0x5e4de2c16).Fork()
+		for i := 0; i < f.N/4; i++ {
+			cases = append(cases, genSenderCase(srng.Fork()))
+		}
+		for i := 0; i < f.N/6; i++ {
+			cases = append(cases, genStoredCase(srng.Fork()))
 		}
 	}
 	id := 0
@@ -739,6 +773,9 @@ func main() {
 			continue
 		case "OPCREATE":
 			runOpCreate(c, mon)
+			continue
+		case "ISender":
+			runSenderCase(c, mon, emit)
 			continue
 		}
 		func() {
@@ -775,6 +812,7 @@ func main() {
 	}
 	if f.Replay == "" {
 		exhaustive(rng.Fork(), mon, f.Tier)
+		senderSweep(hlib.NewRng(f.Seed^0x16c0ffee).Fork(), mon, f.Tier)
 		evmAndState(rng.Fork(), mon, emit, f.Tier, f.N)
 		qiOutputs(rng.Fork(), mon, emit, f.Tier, f.N)
 		rep.Exhaustive = true
